@@ -14,13 +14,16 @@ use std::collections::BTreeMap;
 use std::sync::{Arc, Mutex};
 
 pub const EFFECTS: bool = cfg!(feature = "world_fx");
+/// the library's `cookie` feature (off in the world_nc build): without it cookies are never read or written
+pub const COOKIES: bool = !cfg!(feature = "world_nc");
 const DEFAULT_COOKIE: &str = "i18n_pref_locale";
 
 // ------------------------------------------------------------------ operations
 
 #[derive(Debug, Clone, PartialEq)]
 pub enum Op {
-    CreateMain { enable_cookie: bool, cookie_name: Option<String> },
+    /// `via_provider`: through `provide_i18n_context_with_options_inner` (what `<I18nContextProvider>` calls) instead of init + provide_context
+    CreateMain { enable_cookie: bool, cookie_name: Option<String>, via_provider: bool },
     /// `parent`: index into live contexts (modulo); `initial`: 0 none, 1 const, 2 wired
     CreateSub { parent: usize, initial: u8, init_locale: usize, sig: usize, cookie_name: Option<String> },
     NewSignal { l: usize },
@@ -43,7 +46,7 @@ pub enum Op {
 impl Op {
     pub fn to_json(&self) -> Value {
         match self {
-            Op::CreateMain { enable_cookie, cookie_name } => json!({"op": "create_main", "enable_cookie": enable_cookie, "cookie_name": cookie_name}),
+            Op::CreateMain { enable_cookie, cookie_name, via_provider } => json!({"op": "create_main", "enable_cookie": enable_cookie, "cookie_name": cookie_name, "via_provider": via_provider}),
             Op::CreateSub { parent, initial, init_locale, sig, cookie_name } => json!({"op": "create_sub", "parent": parent, "initial": match initial { 0 => "none", 1 => "const", _ => "wired" }, "init_locale": LOCS[*init_locale % 5], "sig": sig, "cookie_name": cookie_name}),
             Op::NewSignal { l } => json!({"op": "new_signal", "l": LOCS[*l % 5]}),
             Op::Scope { view, which } => json!({"op": "scope", "view": view, "which": which}),
@@ -66,7 +69,7 @@ impl Op {
         let l = |k: &str| LOCS.iter().position(|x| Some(*x) == v[k].as_str()).unwrap_or(0);
         let name = |k: &str| v[k].as_str().map(String::from);
         Some(match v["op"].as_str()? {
-            "create_main" => Op::CreateMain { enable_cookie: v["enable_cookie"].as_bool().unwrap_or(true), cookie_name: name("cookie_name") },
+            "create_main" => Op::CreateMain { enable_cookie: v["enable_cookie"].as_bool().unwrap_or(true), cookie_name: name("cookie_name"), via_provider: v["via_provider"].as_bool().unwrap_or(false) },
             "create_sub" => Op::CreateSub { parent: u("parent"), initial: match v["initial"].as_str()? { "none" => 0, "const" => 1, _ => 2 }, init_locale: l("init_locale"), sig: u("sig"), cookie_name: name("cookie_name") },
             "new_signal" => Op::NewSignal { l: l("l") },
             "scope" => Op::Scope { view: u("view"), which: u("which") },
@@ -171,7 +174,7 @@ pub fn generate(rng: &mut Rng, ows: bool) -> Plan {
         let mut ops = vec![];
         // most page loads start with a main context; some start with a parent-less sub-context
         if rng.chance(9, 10) {
-            ops.push(Op::CreateMain { enable_cookie: rng.chance(5, 6), cookie_name: if rng.chance(1, 5) { Some(rng.pick(COOKIE_NAMES).to_string()) } else { None } });
+            ops.push(Op::CreateMain { enable_cookie: rng.chance(5, 6), cookie_name: if rng.chance(1, 5) { Some(rng.pick(COOKIE_NAMES).to_string()) } else { None }, via_provider: rng.chance(1, 2) });
         }
         for _ in 0..n_ops {
             let pick = if enabled_ops.is_empty() { 4 } else { *rng.pick(&enabled_ops) };
@@ -426,7 +429,7 @@ pub fn execute(plan: &Plan, rng: &mut Rng) -> Outcome {
             stats.ops += 1;
             let mut executed = true;
             match op {
-                Op::CreateMain { enable_cookie, cookie_name } => {
+                Op::CreateMain { enable_cookie, cookie_name, via_provider } => {
                     if !page.ctxs.is_empty() {
                         executed = false; // one main context per page, created first
                     } else {
@@ -437,9 +440,13 @@ pub fn execute(plan: &Plan, rng: &mut Rng) -> Outcome {
                         }
                         let r = guarded(|| {
                             root.with(|| {
-                                let ctx = init_i18n_context_with_options(opts);
-                                provide_context(ctx);
-                                ctx
+                                if *via_provider {
+                                    leptos_i18n::context::provide_i18n_context_with_options_inner(opts)
+                                } else {
+                                    let ctx = init_i18n_context_with_options(opts);
+                                    provide_context(ctx);
+                                    ctx
+                                }
                             })
                         });
                         match r {
@@ -449,7 +456,7 @@ pub fn execute(plan: &Plan, rng: &mut Rng) -> Outcome {
                             }
                             Ok(ctx) => {
                                 // ---- C15: cookie (if enabled and valid) > Accept-Language match > default
-                                let from_cookie = if *enable_cookie { cookie_locale(&page.cookie_header, &name) } else { None };
+                                let from_cookie = if *enable_cookie && COOKIES { cookie_locale(&page.cookie_header, &name) } else { None };
                                 let (want, src) = match from_cookie {
                                     Some(l) => (l, "cookie"),
                                     None => (resolve_header(&page.accept), "accept-language/default"),
@@ -484,7 +491,7 @@ pub fn execute(plan: &Plan, rng: &mut Rng) -> Outcome {
                                 }
                                 page.ctxs.push(CtxM {
                                     alive: true, locale: got, parent: None, owner: root.clone(), is_sub: false,
-                                    cookie_name: if *enable_cookie { Some(name) } else { None }, history: vec![got], wired: None, memo_val: got,
+                                    cookie_name: if *enable_cookie && COOKIES { Some(name) } else { None }, history: vec![got], wired: None, memo_val: got,
                                     pending: None, ran_possible: false, cands: vec![], last_change_tracked: true,
                                 });
                                 page.views.push(ViewM { ctx: 0, h: fixture::view_root(ctx) });
@@ -533,7 +540,7 @@ pub fn execute(plan: &Plan, rng: &mut Rng) -> Outcome {
                             }
                             Ok(ctx) => {
                                 // ---- C15: cookie > explicit initial > parent's current locale > (no parent) header/default
-                                let from_cookie = cookie_name.as_ref().and_then(|n| cookie_locale(&page.cookie_header, n));
+                                let from_cookie = cookie_name.as_ref().filter(|_| COOKIES).and_then(|n| cookie_locale(&page.cookie_header, n));
                                 let from_init = match initial {
                                     0 => None,
                                     1 => Some(*init_locale % 5),
@@ -566,7 +573,7 @@ pub fn execute(plan: &Plan, rng: &mut Rng) -> Outcome {
                                 }
                                 let id = page.ctxs.len();
                                 page.ctxs.push(CtxM {
-                                    alive: true, locale: got, parent: parent_idx, owner, is_sub: true, cookie_name: cookie_name.clone(), history: vec![got],
+                                    alive: true, locale: got, parent: parent_idx, owner, is_sub: true, cookie_name: cookie_name.clone().filter(|_| COOKIES), history: vec![got],
                                     wired: wired_sig, memo_val: got, pending: None, ran_possible: false, cands: vec![], last_change_tracked: true,
                                 });
                                 page.views.push(ViewM { ctx: id, h: fixture::view_root(ctx) });
@@ -699,7 +706,7 @@ pub fn execute(plan: &Plan, rng: &mut Rng) -> Outcome {
                     if let Some(n) = cookie_name {
                         opts = opts.cookie_name(n.clone());
                     }
-                    let from_cookie = if *enable_cookie { cookie_locale(&page.cookie_header, &name) } else { None };
+                    let from_cookie = if *enable_cookie && COOKIES { cookie_locale(&page.cookie_header, &name) } else { None };
                     let (want, src) = match from_cookie {
                         Some(l) => (l, "cookie"),
                         None => (resolve_header(&page.accept), "accept-language/default"),
